@@ -101,21 +101,56 @@ def server_thread(sock, cert, tunnel, rec):
             pass
 
 
-def run_case(c, cert):
+def redirect_server_thread(sock, rec):
+    """plaintext origin that redirects to wss:// on the same host and port and keeps the connection open"""
+    try:
+        sock.settimeout(5)
+        buf = b""
+        while b"\r\n\r\n" not in buf:
+            d = sock.recv(4096)
+            if not d:
+                return
+            buf += d
+        sock.sendall(b"HTTP/1.1 302 Found\r\nLocation: wss://good.test:443/tls\r\nContent-Length: 0\r\n\r\n")
+        sock.settimeout(1.5)
+        try:
+            data = sock.recv(4096)
+        except OSError:
+            data = b""
+        if data[:4] == b"GET ":
+            rec["plain_followup"] = True
+            key = [l.split(b":", 1)[1].strip() for l in data.split(b"\r\n") if l.lower().startswith(b"sec-websocket-key:")]
+            sock.sendall(wire.response_head(key[0] if key else b""))
+    except OSError:
+        pass
+    finally:
+        try:
+            sock.close()
+        except OSError:
+            pass
+
+
+def run_case(c, cert, spelling="lower", via="direct"):
     import websocket
     import websocket._http as H
     rec = {}
     prior_rec = {}
+    redir_rec = {}
     plan = []
     if c.get("prior"):
         plan.append((prior_rec, (True, "other"), False))
-    plan.append((rec, (cert["trusted"], cert["name"]), c["tunnel"]))
+    if via == "redirect":
+        plan.append((redir_rec, None, False))
+    plan.append((rec, (cert["trusted"], cert["name"]), c["tunnel"] and via != "redirect"))
     clients = []
     threads = []
     for r_, cert_, tun_ in plan:
         a, b = socket.socketpair()
         clients.append(PairSocket(fileno=a.detach()))
-        th = threading.Thread(target=server_thread, args=(b, cert_, tun_, r_), daemon=True)
+        if cert_ is None:
+            th = threading.Thread(target=redirect_server_thread, args=(b, r_), daemon=True)
+        else:
+            th = threading.Thread(target=server_thread, args=(b, cert_, tun_, r_), daemon=True)
         th.start()
         threads.append(th)
     cli = clients[-1]
@@ -180,7 +215,11 @@ def run_case(c, cert):
                 pass
             made[:] = [1]
         try:
-            ws.connect("%s://good.test/tls" % c["scheme"], **kw)
+            sch = c["scheme"] if spelling == "lower" else c["scheme"].upper() if spelling == "upper" else c["scheme"].capitalize()
+            if via == "redirect":
+                ws.connect("ws://good.test:443/first")
+            else:
+                ws.connect("%s://good.test/tls" % sch, **kw)
             outcome = "established" if c["scheme"] == "wss" else "plain"
             if isinstance(ws.sock, ssl.SSLSocket):
                 vm = int(ws.sock.context.verify_mode)
@@ -192,6 +231,9 @@ def run_case(c, cert):
             exc = type(e).__name__
         except ssl.SSLError as e:
             outcome = "tls_rejected" if "CERTIFICATE_VERIFY_FAILED" in str(e) else "ssl_error"
+            exc = type(e).__name__ + ":" + str(e)[:60]
+        except ValueError as e:       # (after the ssl classes: SSLCertVerificationError is a ValueError too)
+            outcome = "refused"
             exc = type(e).__name__ + ":" + str(e)[:60]
         except Exception as e:
             outcome = "error"
@@ -217,7 +259,9 @@ def run_case(c, cert):
             "sni": "good" if sni == "good.test" else "other" if sni == "other.test" else sni,
             "wsSeenByServer": bool(rec.get("ws_seen")), "wsBeforeHandshake": bool(rec.get("plain_request")) and c["scheme"] == "wss",
             "connected": bool(outcome in ("established", "plain")), "verifyMode": vm, "checkHostname": ch, "exc": exc,
-            "server": rec.get("server_handshake", ""), "connectLine": rec.get("connect_line", "")}
+            "server": rec.get("server_handshake", ""), "connectLine": rec.get("connect_line", ""),
+            "spelling": spelling, "via": via, "plainFollowup": bool(redir_rec.get("plain_followup")),
+            "anythingSent": rec.get("first", -1) != -1 or bool(made)}
 
 
 DIMS = {"scheme": ["wss", "ws"], "certReqs": ["absent", "none", "optional", "required"], "checkHost": ["absent", "true", "false"],
@@ -277,6 +321,14 @@ def main(ctx):
         ctx.machinery_error = "TlsMC violated %s" % r.violated
     cs = cases(rng, ctx.tier)
     ev = [run_case(c, cert) for c, cert in cs]
+    # other spellings of the scheme; the wss URL reached by a redirect from ws:// on the same host and port
+    wss = [(c, cert) for c, cert in cs if c["scheme"] == "wss" and not c["prior"]]
+    rng.shuffle(wss)
+    for c, cert in wss[:24 if ctx.tier == "quick" else 300]:
+        for sp in ("upper", "mixed"):
+            ev.append(run_case(c, cert, spelling=sp))
+    for c, cert in [x for x in wss if not x[0]["tunnel"]][:16 if ctx.tier == "quick" else 200]:
+        ev.append(run_case(c, cert, via="redirect"))
     d = tlc.scratch("c11_in")
     path = os.path.join(d, "tls.ndjson")
     tlc.write_ndjson(path, ev)
